@@ -1,8 +1,17 @@
 #!/bin/sh
-# runs every registered quick check on /repo as it is (refreshes evidence files)
+# runs every registered quick check on /repo as it is (refreshes evidence files);
+# exits 1 and says so when any check reported a violation
 cd /verif || exit 2
 rc=0
 for p in $(python3 -c "import json; print(' '.join(c['property_id'] for c in json.load(open('MANIFEST.json'))['checks']))"); do
-  ./check $p ${1:-quick} | tail -1 || rc=1
+  out=$(./check $p ${1:-quick}) || rc=1
+  echo "$out" | grep '^VIOLATION' && rc=1
+  echo "$out" | grep '^KNOWN-FINDING'
+  echo "$out" | tail -1
 done
+if [ $rc -ne 0 ]; then
+  echo "RUN_ALL: NOT CLEAN (at least one check reported a violation) - do not commit this evidence"
+else
+  echo "RUN_ALL: clean"
+fi
 exit $rc
